@@ -2,21 +2,31 @@
 
 PID = "C20"
 CLAIM = True
-MANIFEST_TEXT = ("Lean 4 theorems about an executable model of dune-common's Python bindings for dense vectors: construction = first n "
-                 "numbers zero-filled (and the binding's copy loop refines it), index normalisation/IndexError for every size and every "
-                 "integer index, set/get, view aliasing vs. copy independence in a shared-store model, every bound arithmetic/comparison/"
-                 "norm operation equals the plain C++ vector operation on the entries, tuple vectors preserve entry types and values. "
-                 "Tied to the source on every run: _common, _typeregistry and the JIT modules (FieldVector<double,n>, TupleVector<...>, "
-                 "a NumPyVector algorithm) are rebuilt from the current working tree's _common.cc, headers and generator code whenever any "
-                 "file they depend on changed, the current python/dune package is imported, and >=3000 seeded operation programs per run "
-                 "are executed on the real bindings, on the Lean model and on an independent plain-Python-list shadow.")
+MANIFEST_TEXT = ("Lean 4 theorems (28, all sizes/entries/indices/store states) about an executable model of dune-common's Python bindings "
+                 "for dense vectors: construction from list/tuple/args = first n numbers zero-filled (the binding's copy loop refines "
+                 "it), the strided buffer constructor = the same for the buffer's entries, DynamicVector's list constructor; index "
+                 "normalisation and IndexError for every integer index (no bound), set/get; the legacy iteration protocol yields exactly "
+                 "the entries and is ended by the IndexError at n; slices (CPython index adjustment) denote only positions inside the "
+                 "vector and are exact; views, slice views and NumPy-backed C++ vectors alias the vector's cells, copies are independent; "
+                 "every bound arithmetic/comparison/norm/string operation equals the plain C++ vector operation on the entries, incl. "
+                 "FieldVector<K,1> scalar arithmetic and operands given as tuple/NumPy array/strided view/array.array; tuple vectors "
+                 "preserve entry types and values; and, by induction over programs, a store invariant (registers name existing vectors, "
+                 "FieldVector<K,n> has n cells, every view entry is an existing cell) holds after every program of bound operations. "
+                 "Tied to the source on every run: _common (both as configured with just-in-time FieldVector classes and with "
+                 "DUNE_ENABLE_PYTHONMODULE_PRECOMPILE: FieldVector_double_0..14 from registerfvector.cc), _typeregistry and the JIT modules "
+                 "(FieldVector<double,n>, TupleVector<...>, two NumPyVector algorithms) are rebuilt from the current working tree's sources "
+                 "whenever any file they depend on changed, the current python/dune package is imported, and >=7000 seeded operation programs "
+                 "per run are executed on the real bindings, on the Lean model and on an independent plain-Python-list shadow.")
 MANIFEST_NOTE = ("Partial by nature: CPython, pybind11 (casting/overload resolution) and NumPy are exercised, not modelled; values are "
-                 "integer-valued doubles |x|<=2^24; FieldVector sizes 1,2,3,4,5,6,9 (all JIT-generated) and five tuple shapes; DynamicVector operands of unequal "
-                 "length are excluded (undefined in C++ as well); the dune-py cmake/make builder is replaced by a direct g++ call on the "
-                 "source text the current generator produces; precompiled registerfvector.cc (off in /repo/_build) is not built. "
-                 "Three defects found while building the check (negative indices in __setitem__/DynamicVector, FieldVector.copy() returning "
-                 "zeros, NumPyVector ignoring strides) are repaired by fixes/C20_*.patch; the model describes the repaired code.")
-TECHNIQUE = 'Lean 4 proof over a shared-store model of the bindings + differential correspondence against freshly rebuilt extension modules with a plain-Python shadow oracle'
+                 "integer-valued doubles |x|<=2^24; FieldVector sizes 1,2,3,4,5,6,9 just-in-time generated and 0..14 precompiled, five tuple "
+                 "shapes; DynamicVector operands of unequal length are excluded (undefined in C++ as well); the dune-py cmake/make builder is "
+                 "replaced by a direct g++ call on the source text the current generator produces. No translator: the source is pybind11 "
+                 "registration glue, the model is hand-written and tied by the differential run only. "
+                 "Four defects found while building the check (negative indices in __setitem__/DynamicVector, FieldVector.copy() returning "
+                 "zeros, NumPyVector ignoring strides, TypeError/OverflowError instead of IndexError for indices beyond ssize_t) are repaired "
+                 "by fixes/C20_*.patch (applied); the model describes the repaired code.")
+TECHNIQUE = ('Lean 4 proof (effect/invariant structure, induction over programs) over a shared-store model of the bindings + differential '
+             'correspondence against freshly rebuilt extension modules (two build variants) with a plain-Python shadow oracle')
 TRANSLATORS = []
 HARNESS = dict(
     sources=["cxx_c20.cc"],
@@ -25,11 +35,13 @@ HARNESS = dict(
 )
 CRASH_IS_VIOLATION = True   # an index outside [-n, n) must raise IndexError, never touch memory
 RULE = ("cases: seeded programs of 3-14 bound operations over 4 vector registers and 3 NumPy-array registers (or 2 tuple vectors and "
-        "their Python-side sources): constructors from list/tuple/args/NumPy (contiguous, strided, reversed)/array.array/no args/"
-        "dune.common.FieldVector, copies, aliases, + - * / with vectors, lists (short/long), float and int scalars incl. reflected, "
-        "in-place operators, assign, get/set with indices biased to {-n-1,-n,-1,0,n-1,n,n+1,+-2^33}, len, iteration, str/repr, slices, "
-        "== !=, norms, dot, NumPy views/copies/slice views with reads and writes, NumPyVector operations on (strided) views; tuple "
-        "vectors by value and by reference; distinct = distinct op lines; non-trivial = at least one operation was executed on the "
+        "their Python-side sources): constructors from list/tuple/args of floats or ints/NumPy (contiguous, strided, reversed)/array.array/"
+        "no args/dune.common.FieldVector and rejected buffers (int64, float32, 2-d), copies incl. copy(*args), aliases, + - * / with "
+        "vectors, lists (short/long), tuples, NumPy arrays and views, array.array, float and int scalars incl. reflected and __div__, "
+        "in-place operators, assign, get/set with int and numpy.int64 indices biased to {-n-1,-n,-1,0,n-1,n,n+1,+-2^31,+-2^33,+-2^63,"
+        "+-2^64,10^30}, len, iteration, str/repr, slices, == !=, norms, dot incl. reflected, NumPy views/copies/slice views with reads "
+        "and writes, NumPyVector operations on (strided) views and a NumPyVector owning its array; tuple vectors by value and by "
+        "reference incl. negative/huge indices; distinct = distinct op lines; non-trivial = at least one operation was executed on the "
         "real bindings and compared with the shadow")
 ASSUMPTIONS = [
     "the Lean model lean/DuneVerif/Model/C20.lean is hand-written; its fidelity to the bindings rests on this differential run",
@@ -38,16 +50,22 @@ ASSUMPTIONS = [
     "current python/dune/generator code, only the cmake/make step of dune-py is replaced by a direct compiler call",
     "entries are integer-valued doubles with |x| <= 2^24 so that all arithmetic is exact; two_norm is checked as sqrt(two_norm2)",
     "DynamicVector arithmetic/comparison with operands of different length is not exercised (undefined behaviour in the C++ operators)",
+    "indices of NumPy's own indexing (views) are limited to |i| <= 2^40: beyond 2^63 NumPy, not the bindings, decides the exception",
 ]
 TRUSTED = ["CPython/pybind11/NumPy, g++/libstdc++", "harness/c20_py.py (builder, executor, shadow oracle) + Driver/C20.lean parsing/printing"]
 
 
 def batches(tier, seed):
-    n = 3200 if tier == "quick" else 400000
-    parts = 2 if tier == "quick" else 16
-    return [dict(args=["--seed", str(seed * 1000 + i), "--cases", str(n // parts), "--tier", tier], tag="g%d" % i,
-                 timeout=(900 if tier == "quick" else 3000)) for i in range(parts)]
+    """two builds of the package are driven: `jit` (as /repo/_build configures _common: every FieldVector class is generated
+    just in time) and `pre` (_common with DUNE_ENABLE_PYTHONMODULE_PRECOMPILE: FieldVector_double_0..14 precompiled)"""
+    if tier == "quick":
+        plan = [("jit", 4000), ("pre", 3000)]
+    else:
+        plan = [("pre" if i % 3 == 2 else "jit", 25000) for i in range(16)]
+    return [dict(args=["--seed", str(seed * 1000 + i), "--cases", str(n), "--tier", tier, "--variant", v], tag="g%d%s" % (i, v),
+                 timeout=(900 if tier == "quick" else 3000)) for i, (v, n) in enumerate(plan)]
 
 
 def search_batches(seed):
-    return [dict(args=["--seed", str(seed * 7919 + 13 + i), "--cases", "20000"], timeout=1800) for i in range(3)]
+    return [dict(args=["--seed", str(seed * 7919 + 13 + i), "--cases", "20000", "--variant", ("pre" if i == 2 else "jit")],
+                 timeout=1800) for i in range(3)]
